@@ -127,6 +127,8 @@ type RawPeer struct {
 	// and the flight is cut after HelloSplit bytes (0: not at all). Legal for any endpoint.
 	HelloDelim string
 	HelloSplit int
+	// CloseBlocked: Close of the in-process transport did not return within 30 simulated seconds
+	CloseBlocked bool
 }
 
 // helloConn writes the first TLS flight as delim+flight[:split], a pause, flight[split:].
@@ -209,9 +211,16 @@ func DialRawInProc(w *World, h *History, idx int, addr lime.InProcessAddr, buf i
 		return nil, err
 	}
 	p := &RawPeer{w: w, h: h, Idx: idx, Kind: "inproc", tr: t, closed: NewFlag(), newFrm: make(chan struct{}, 64)}
+	if rawInProcDeaf {
+		// a peer that never reads what it is sent (it talks, then leaves)
+		p.ReadGate = func() { time.Sleep(6 * time.Hour) }
+	}
 	p.startReader()
 	return p, nil
 }
+
+// rawInProcDeaf makes the in-process scripted peers dialled from now on deaf (set per scenario).
+var rawInProcDeaf bool
 
 // NewRawInProcFromTransport wraps the accepted end of an in-process connection as a scripted peer.
 func NewRawInProcFromTransport(w *World, h *History, idx int, t lime.Transport) *RawPeer {
@@ -590,7 +599,11 @@ func (p *RawPeer) Close() {
 	case "ws":
 		p.ws.Close()
 	default:
-		p.tr.Close()
+		// (closing must not depend on the other side: a transport whose Close waits for a sender
+		// that is stuck leaves its owner waiting)
+		if !p.w.Bounded("closing the in-process connection", 30*time.Second, func() { p.tr.Close() }) {
+			p.CloseBlocked = true
+		}
 	}
 }
 
